@@ -121,6 +121,60 @@ def mutate_tokens(rng, text, other=None, nmut=None):
     return ''.join(toks), kinds
 
 
+BINOPS = ['+', '-', '*', '/', '%', '==', '!=', '<', '>', '<=', '>=', '&&', '||', '&', '|', '^', '<<', '>>']
+ASSIGNOPS = ['=', '+=', '-=', '*=', '/=', '%=', '&=', '|=', '^=', '<<=', '>>=']
+TYPEWORDS = ['int', 'char', 'long', 'short', 'unsigned', 'signed', 'float', 'double', 'bool', 'void', 'size_t', 'auto']
+NUMS = ['0', '1', '2', '-1', '255', '256', '65535', '0x7fffffff', '0x80000000', '0xffffffff', '4294967296', '1u',
+        '9223372036854775807', '18446744073709551615u', '0.0', '1e308', '1.5f', '31', '32', '63', '64', '100000']
+_KW = set(KEYWORDS)
+
+
+def mutate_gentle(rng, text, nmut=None):
+    """Mutations that usually keep the text syntactically valid (so that the checkers, not only the
+    front end, see the mutant): identifier/literal/operator/type substitution, statement
+    duplication/deletion, parenthesising. -> (str, [kinds])"""
+    toks = lex(text)
+    kinds = []
+    for _ in range(nmut or rng.choice([1, 1, 2, 2, 3, 5])):
+        names = [i for i, t in enumerate(toks) if re.match(r'[A-Za-z_]\w*$', t) and t not in _KW]
+        nums = [i for i, t in enumerate(toks) if re.match(r'\.?[0-9]', t)]
+        bins = [i for i, t in enumerate(toks) if t in BINOPS and i > 0]
+        asg = [i for i, t in enumerate(toks) if t in ASSIGNOPS]
+        typ = [i for i, t in enumerate(toks) if t in TYPEWORDS]
+        k = rng.choice(['name', 'name', 'num', 'num', 'binop', 'binop', 'assignop', 'type', 'stmt-dup', 'stmt-del',
+                        'paren', 'neg'])
+        if k == 'name' and len(names) > 1:
+            toks[rng.choice(names)] = toks[rng.choice(names)]
+        elif k == 'num' and nums:
+            toks[rng.choice(nums)] = rng.choice(NUMS)
+        elif k == 'binop' and bins:
+            toks[rng.choice(bins)] = rng.choice(BINOPS)
+        elif k == 'assignop' and asg:
+            toks[rng.choice(asg)] = rng.choice(ASSIGNOPS)
+        elif k == 'type' and typ:
+            toks[rng.choice(typ)] = rng.choice(TYPEWORDS)
+        elif k in ('stmt-dup', 'stmt-del'):
+            lines = ''.join(toks).split('\n')
+            cand = [i for i, l in enumerate(lines) if l.rstrip().endswith(';') and not l.lstrip().startswith(('#', 'for'))]
+            if cand:
+                i = rng.choice(cand)
+                if k == 'stmt-dup':
+                    lines.insert(i, lines[i])
+                else:
+                    del lines[i]
+                toks = lex('\n'.join(lines))
+        elif k == 'paren' and (names or nums):
+            i = rng.choice(names + nums)
+            toks[i] = '(' + toks[i] + ')'
+        elif k == 'neg' and (names or nums):
+            i = rng.choice(names + nums)
+            toks[i] = rng.choice(['-', '~', '!', '+']) + toks[i]
+        else:
+            continue
+        kinds.append(k)
+    return ''.join(toks), kinds
+
+
 SPECIAL_BYTES = [b'\x00', b'\xff', b'\xfe\xff', b'\xef\xbb\xbf', b'\r', b'\r\n', b'\\\n', b'\x1a', b'\x7f',
                  b'\xc3\xa9', b'\xc0\x80', b'\x0c', b'\x0b', b'??/', b'\\', b'\n#', b'"', b"'", b'/*', b'*/',
                  b'<', b'>', b'{', b'}', b'(', b')', b';']
